@@ -44,7 +44,7 @@ Ledger0 == [now |-> 0, toks |-> <<>>, ins |-> <<>>, got |-> {}, nput |-> 0,
 
 ---------------------------------------------------------------------------
 (* Ledger helpers *)
-Timed      == Cfg(tid).kind \in {"buffer", "fleet"}
+Timed      == Cfg(tid).kind \in {"buffer", "fleet", "slotted", "conveyor"}    \* availability = offered as ready
 Cap        == Cfg(tid).cap
 Tok(g)     == L.toks[g]
 Live(g)    == g \in 1..Len(L.toks) /\ L.toks[g].st = "live"
@@ -151,7 +151,12 @@ T_C02_ReadyInside == ReadySet \subseteq InsIds /\ Cardinality(ReadySet) = Len(e.
 T_C02_NoBreakdown == ~(e.k = "x" /\ L.last # "put")
 
 (* C04  at the end of an instant (nothing left that could still serve the request) *)
-T_C04_Put == e.q => ~(PendingSet("put") # {} /\ Len(L.ins) + Cardinality(GrantedSet("put")) < Cap)
+\* slotted belt: one admission per slot -- a waiting request is servable when there is room, the item that entered last
+\* (still in transit) entered at least one slot delay ago, and nobody holds a granted, unused space reservation
+SpacedT == Cfg(tid).kind = "slotted" =>
+             /\ \A i \in 1..Len(L.ins) : L.ins[i].id \notin ReadySet => L.now >= L.ins[i].at + Cfg(tid).slot
+             /\ GrantedSet("put") = {}
+T_C04_Put == e.q => ~(PendingSet("put") # {} /\ Len(L.ins) + Cardinality(GrantedSet("put")) < Cap /\ SpacedT)
 MatchCount(f) == IF Timed THEN Len(e.ready)
                  ELSE Cardinality({i \in 1..Len(L.ins) : Mature(L.ins[i]) /\ FltOk(f, L.ins[i])})
 T_C04_Get == e.q => (PendingSet("get") # {} =>
